@@ -61,7 +61,7 @@ def gen_script(rnd, nops, threads, big=False, alias_all=False):
                 size = 4096 * rnd.randint(1, 6)
             if big:
                 size = 4096 * rnd.choice([4096, 8192, 16384])   # 16..64 MiB: fails under RLIMIT_AS
-            elem = rnd.choice([1, 1, 4, 1, 4, 3, 6, 8, 12, 24, 4096, 8192, 16384])
+            elem = rnd.choice([1, 1, 4, 1, 4, 3, 6, 8, 12, 24, 4096, 8192, 16384, 0])
             ops.append([rnd.randrange(threads), "new", slot, size, elem])
             if size % 4096 == 0:
                 live.append((slot, size, elem))
@@ -91,6 +91,8 @@ def project(strace_path, out_events, tf):
     marks = {e["n"]: e for e in hv if e["ev"] == "mark"}
     aliases = [e for e in hv if e["ev"] == "alias" and not e.get("skipped")]
     regions = []   # (id, base, total_len)
+    maps = []      # every successful non-fixed mapping in time order: ("b", region id, base, len) buffer
+                   # reservations, ("f", None, base, len) everything else (allocator, thread stacks, libraries)
     evs = []
     inside = False
     base_fds = marks.get(0, {}).get("fds", 0)
@@ -118,9 +120,15 @@ def project(strace_path, out_events, tf):
                     e["elem"] = n.get("elem", 1)
                 evs.append(e)
             continue
+        retv = int(ret, 16) if ret.startswith("0x") else int(ret)
+        if call == "mmap" and ret.startswith("0x"):
+            a = [x.strip() for x in args.split(",")]
+            if "MAP_FIXED" not in a[3] and not (inside and "MAP_SHARED" in a[3] and int(a[4]) >= 0):
+                # memory of other code in the process (under RLIMIT_AS glibc falls back to small
+                # anonymous mappings per allocation and unmaps them again, also inside an operation)
+                maps.append(("f", None, retv, int(a[1])))
         if not inside:
             continue
-        retv = int(ret, 16) if ret.startswith("0x") else int(ret)
         if call == "openat":
             evs.append({"ev": "sys", "call": "openat", "ret": retv if retv >= 0 else -1})
         elif call == "close":
@@ -143,10 +151,14 @@ def project(strace_path, out_events, tf):
                 r_id, off = len(regions) + 1, 0
                 if ok:
                     regions.append((r_id, retv, ln))
+                    maps.append(("b", r_id, retv, ln))
             evs.append({"ev": "sys", "call": "mmap", "ok": ok, "r": r_id, "off": off, "len": ln, "fd": fd, "foff": foff, "fixed": fixed})
         elif call == "munmap":
             a = [x.strip() for x in args.split(",")]
             addr, ln = int(a[0], 16), int(a[1])
+            newest = next((m_ for m_ in reversed(maps) if m_[2] <= addr < m_[2] + m_[3]), None)
+            if newest and newest[0] == "f":
+                continue     # the allocator (or a thread stack) giving back its own memory
             reg = next((r for r in reversed(regions) if r[1] <= addr < r[1] + r[2]), None)
             evs.append({"ev": "sys", "call": "munmap", "r": reg[0] if reg else -1, "off": addr - reg[1] if reg else 0, "len": ln})
     for a in aliases:
@@ -233,14 +245,16 @@ def inject_runs(ctx, th):
     the main thread; a first pass finds the ordinals of the buffer mapping
     calls, then each chosen one is failed with ENOMEM by strace."""
     shapes = [(4096, 1), (12288, 4), (65536, 8), (8192, 1), (4096 * 5, 4096), (16384, 8192)]
+    zst = [(4096, 0)]       # zero-sized elements: refused before any system call
     ops = [[0, "mark", 0]]
-    for k, (size, elem) in enumerate(shapes):
+    for k, (size, elem) in enumerate(shapes + zst):
         ops += [[0, "new", 200 + k, size, elem], [0, "drop", 200 + k]]
     ops.append([0, "mark", 1])
     script = {"threads": 0, "rlimit_as": 0, "ops": ops}
     evs, hv, nsys = one_run(ctx, "inj-base", script)
     if ctx.violations:
         return 0
+    base_failed = {e["slot"] for e in hv if e["ev"] == "new" and e["result"] != "ok"}   # refused anyway (zero-sized elements)
     calls = shared_mmaps(ctx.path("inj-base.strace"))
     if len(calls) != 2 * len(shapes) or [c[1] for c in calls] != [False, True] * len(shapes):
         raise vlib.ToolError(f"unexpected buffer mapping calls in the calibration pass: {calls}")
@@ -253,7 +267,7 @@ def inject_runs(ctx, th):
         inj = [c for c in shared_mmaps(ctx.path(f"inj-{k}.strace")) if c[2]]
         if len(inj) != 1 or inj[0][1] != fixed:
             raise vlib.ToolError(f"fault injection at mmap #{k} hit {inj} instead of one buffer mapping call")
-        failed = [e for e in hv if e["ev"] == "new" and e["result"] != "ok"]
+        failed = [e for e in hv if e["ev"] == "new" and e["result"] != "ok" and e["slot"] not in base_failed]
         if len(failed) != 1:
             # the call failed but the stream reports success (or several fail): judged by the
             # spec where it can (halves_not_aliased); make sure it is never silent
